@@ -358,6 +358,8 @@ def r_literal(l, ly):
         return str(l[1])
     if l[0] == "flt":
         return dec_of_flt(l[1], l[2], ly)
+    if l[0] in ("rawnum", "rawstr"):   # a literal given by its spelling (parser streams)
+        return l[1]
     body = unS(l[1])
     if "'" in body and '"' not in body:
         q = '"'
@@ -518,3 +520,86 @@ def valid_ast(t):
     if t[0] == "sels" and len(t) < 2:
         return False
     return all(valid_ast(x) for x in t[1:])
+
+
+# ---------- concrete-syntax variety for the parser streams ----------
+ESC_SIMPLE = {"\b": "\\b", "\f": "\\f", "\n": "\\n", "\r": "\\r", "\t": "\\t", "/": "\\/", "\\": "\\\\"}
+
+
+def fancy_body(rng, text, q):
+    """a string-literal body for [text] using every kind of escape the RFC allows"""
+    out = ""
+    for c in text:
+        o = ord(c)
+        r = rng.random()
+        if c == q:
+            out += "\\" + c
+        elif c == "\\":
+            out += "\\\\"
+        elif o < 0x20:
+            if c in ESC_SIMPLE and r < 0.5:
+                out += ESC_SIMPLE[c]
+            else:
+                out += ("\\u%04x" if r < 0.75 else "\\u%04X") % o
+        elif o > 0xFFFF and r < 0.5:
+            v = o - 0x10000
+            hi, lo = 0xD800 + (v >> 10), 0xDC00 + (v & 0x3FF)
+            f = "\\u%04x\\u%04x" if rng.random() < 0.5 else "\\u%04X\\u%04X"
+            out += f % (hi, lo)
+        elif r < 0.15 and o <= 0xFFFF and not (0xD800 <= o <= 0xDFFF):
+            out += ("\\u%04x" if rng.random() < 0.5 else "\\u%04X") % o
+        elif c == "/" and r < 0.5:
+            out += "\\/"
+        else:
+            out += c
+    return out
+
+
+def fancy_name(rng, text):
+    q = "'" if rng.random() < 0.5 else '"'
+    return q + fancy_body(rng, text, q) + q
+
+
+NUM_SPELLINGS = ["0", "-0", "1", "-1", "10", "42", "100", "9007199254740991", "-9007199254740991", "0.5", "-0.5", "1.0", "1.5e0", "1e2", "1E2",
+                 "1e+2", "1E-2", "100.0", "1.0e2", "0.1", "0.10", "1e-20", "2E-20", "1e300", "-1e300", "0e0", "0.0", "-0.0", "12.5e-1", "3.0", "25e-1",
+                 "123456789", "1e0", "9.007199254740991e15"]
+
+TOKEN_ALPHABET = list("$@.[]()*?:,!&|=<>'\"\\-+_0123456789abcefnrtuxAEDF \t\n\r") + ["..", "&&", "||", "==", "!=", "<=", ">=", "é", "\U0001F600", " ", " ", "\x00", "\x1f", "\x7f"]
+
+
+def mutate(rng, text):
+    """one single-token edit of a sentence"""
+    n = len(text)
+    k = rng.randrange(9)
+    pos = rng.randrange(0, n + 1)
+    tok = rng.choice(TOKEN_ALPHABET)
+    if k == 0 and n > 0:                      # delete one character
+        p = rng.randrange(n)
+        return text[:p] + text[p + 1:]
+    if k == 1:                                # insert a token
+        return text[:pos] + tok + text[pos:]
+    if k == 2 and n > 0:                      # substitute
+        p = rng.randrange(n)
+        return text[:p] + tok + text[p + 1:]
+    if k == 3:                                # insert blank space
+        return text[:pos] + rng.choice(" \t\n\r") + text[pos:]
+    if k == 4 and n > 1:                      # swap neighbours
+        p = rng.randrange(n - 1)
+        return text[:p] + text[p + 1] + text[p] + text[p + 2:]
+    if k == 5 and n > 0:                      # duplicate a character
+        p = rng.randrange(n)
+        return text[:p] + text[p] + text[p:]
+    if k == 6:                                # digit edits: leading zero, sign, range
+        import re
+        m = list(re.finditer(r"-?[0-9]+", text))
+        if m:
+            x = rng.choice(m)
+            repl = rng.choice(["0" + x.group(0), "-" + x.group(0), x.group(0) + "0" * 16, "-0", "9007199254740992", "-9007199254740992",
+                               "9223372036854775807", "9223372036854775808", "+" + x.group(0), x.group(0) + ".", x.group(0) + "e", "1e400", "00"])
+            return text[:x.start()] + repl + text[x.end():]
+    if k == 7 and n > 0:                      # case flip
+        p = rng.randrange(n)
+        return text[:p] + text[p].swapcase() + text[p + 1:]
+    if k == 8:                                # drop or double a bracket / quote at the end
+        return text + rng.choice(["]", ")", "'", '"', " ", "\n", ".", ".."])
+    return text[:pos] + tok + text[pos:]
